@@ -217,7 +217,7 @@ package estargz
 //@   loop 2 invariant[C03] 0 <= written && written <= totalSize && ent != nil && ent.InnerOffset == 0 && (forall j int :: 0 <= j && j < len(w.toc.Entries) ==> w.toc.Entries[j] != ent)
 //@   loop 2 decreases totalSize - written
 //@   loop 2 step[C03] len(w.toc.Entries) == prev(len(w.toc.Entries)) + 1 && w.toc.Entries[len(w.toc.Entries)-1].ChunkOffset == prev(written) && written > prev(written) && (written < totalSize ==> w.toc.Entries[len(w.toc.Entries)-1].ChunkSize == written - prev(written))
-//@   assert[C03] after "_, err := io.Copy(remainDest" : drained == tarSrc[ref(tr)]
+//@   assert[C03] after "io.Copy(remainDest" : drained == tarSrc[ref(tr)]
 //@   assert[C03] before "ent.ChunkOffset = written" : 0 <= ent.Offset
 //@   assert[C03] before "ent.ChunkOffset = written" : ent.Offset <= w.cw.n
 //@   assert[C03] before "ent.ChunkOffset = written" : ent.InnerOffset >= 0
@@ -292,7 +292,7 @@ package estargz
 //@   loop 2 invariant layerFiles != nil
 //@   loop 3 invariant layerFiles != nil
 //@   assert[C04] before "wg.Wait()" : cap(errCh) >= len(tarParts)
-//@   assume before "tocAndFooter, tocDgst, err := closeWithCombine(writers...)" : wsOK(writers) && (forall j int :: 0 <= j && j < len(payloads) ==> payloads[j] != nil)
+//@   assume before "closeWithCombine(writers...)" : wsOK(writers) && (forall j int :: 0 <= j && j < len(payloads) ==> payloads[j] != nil)
 
 // decompressBlob: a compressed input is decompressed by draining its decompressor to the end (io.Copy until EOF), not up
 // to a length taken from somewhere else -- a gzip input may consist of several members (an eStargz blob always does).
